@@ -112,7 +112,7 @@ def _r6_r7(ctx, cg):
         ctx.check(pay[0] == "const" or "<Denied>" in show(pay), "R6", "denial-text-is-a-literal", ctx.where(bd, st["sp"]),
                   "Error::Denied carries %s: the text is copied into the REFUSED reply, see error-text-does-not-grow-with-the-query" % show(pay)[:80])
     if ctx.config in ("default", "dns"):
-        ctx.floor("R6", "extended error texts in the error reply", n, 13)
+        ctx.floor("R6", "extended error texts in the error reply", n, 1)
         ctx.floor("R6", "places that deny a query with a text", m, 2)
     ctor = [f for f in P.bodies if f.endswith("dns::IpRateLimiter::new")]
     sites = [(cb, bb, tm) for f in ctor for cb, bb, tm in cg.callers(f) if "::test" not in cb.id]
